@@ -289,7 +289,9 @@ def cfg_C07(tier, rng):
                            dict(variant='api_reversed', twin=dict(rel='variant', kw=dict(variant='api', seed=3)))],
                  random=rd),
             dict(name='hashseed', charts=charts[:len(charts) // 3] + thin(gc.family_hist(rng, 24 if tier == QUICK else 300), rng, 9)
-                 + gc.family_nested(rng, 16 if tier == QUICK else 300) + gc.family_deep_orth(rng, 12 if tier == QUICK else 50)
+                 + gc.family_nested(rng, 8 if tier == QUICK else 200) + gc.family_deep_orth(rng, 12 if tier == QUICK else 50)
+                 # transitions from outside into deeply nested regions: several orthogonal states incomplete at once
+                 + [c for c in gc.family_nested(rng, 120 if tier == QUICK else 600) if any(t['ev'] == 2 for t in c['trans'])][:12 if tier == QUICK else 80]
                  + [c for c in gc.family_f1(4) if 'deep' in c['kind']][:20],
                  consts=dict(MaxQ=1, MaxLevel=6 if tier == QUICK else 7),
                  variants=[dict(variant='api', pool='unicode')],
